@@ -620,6 +620,51 @@ def check_write_witness(ctx, F):
         def fs_read_to_string(a):
             return ("Ok", list(fs[a[0]])) if a[0] in fs else ("Err", "NotFound")
 
+        def buf_new(a):
+            h = a[-1]
+            if isinstance(h, Handle):
+                h.cap = a[0] if len(a) == 2 and isinstance(a[0], int) else 8192
+            return h
+
+        def fill_buf(a):
+            h = a[0]
+            if not isinstance(h, Handle) or not h.r:
+                return ("Err", "NotReadable")
+            data = fs[h.path]
+            end = len(data) if h.limit is None else min(len(data), h.limit)
+            return ("Ok", list(data[h.pos:min(end, h.pos + getattr(h, "cap", 8192))]))
+
+        def consume(a):
+            a[0].pos += a[1]
+            return ()
+
+        def read_some(a):
+            h, buf = a[0], a[1]
+            if not isinstance(h, Handle) or not h.r or not isinstance(buf, list):
+                return ("Err", "NotReadable")
+            data = fs[h.path]
+            end = len(data) if h.limit is None else min(len(data), h.limit)
+            got = data[h.pos:min(end, h.pos + len(buf))]
+            buf[:len(got)] = got
+            h.pos += len(got)
+            return ("Ok", len(got))
+
+        def read_exact(a):
+            h, buf = a[0], a[1]
+            data = fs[h.path]
+            end = len(data) if h.limit is None else min(len(data), h.limit)
+            if h.pos + len(buf) > end:
+                h.pos = end
+                return ("Err", "UnexpectedEof")
+            buf[:] = data[h.pos:h.pos + len(buf)]
+            h.pos += len(buf)
+            return ("Ok", ())
+
+        def metadata_len(a):
+            h = a[0]
+            p_ = h.path if isinstance(h, Handle) else h
+            return ("Ok", ("meta", len(fs[p_]))) if p_ in fs else ("Err", "NotFound")
+
         def fs_write(a):
             fs[a[0]] = list(a[1])
             stats["writes"] += 1
@@ -633,6 +678,9 @@ def check_write_witness(ctx, F):
             "std::fs::OpenOptions::open": opt_open, "std::fs::File::create": file_create, "std::fs::File::open": file_open,
             "std::fs::create_dir_all": lambda a: ("Ok", ()), "std::path::Path::parent": lambda a: ("Some", "out"),
             "std::fs::read_to_string": fs_read_to_string, "std::fs::write": fs_write,
+            "BufReader::<R>::with_capacity": buf_new, "BufReader::<R>::new": buf_new, "::BufRead::fill_buf": fill_buf, "::BufRead::consume": consume,
+            "std::io::Read::read": read_some, "std::io::Read::read_exact": read_exact, "std::fs::File::metadata": metadata_len, "std::fs::metadata": metadata_len,
+            "std::fs::Metadata::len": lambda a: a[0][1],
             "std::io::Read::read_to_string": read_all, "std::io::Read::read_to_end": read_all, "std::io::Read::take": take,
             "std::io::Write::write_all": write_all, "std::io::Write::flush": lambda a: ("Ok", ()),
             "std::string::String::with_capacity": lambda a: [], "std::string::String::new": lambda a: [], "std::vec::Vec::<T>::with_capacity": lambda a: [],
